@@ -496,3 +496,66 @@ def _c16():
 
 
 _c16()
+
+
+# ----------------------------------------------------------------------------------------------- C17
+def _c17():
+    R("c17-solve-normalises-source-rs", S, "                if p == -1:  # root\n                    vi = v[n] + self._g[n]._params[\"rs\"] * ii", "                if p == -1:  # root\n                    self._g[n]._params[\"rs\"] = abs(self._g[n]._params[\"rs\"])\n                    vi = v[n] + self._g[n]._params[\"rs\"] * ii", fires=["C17"])
+    R("c17-diag-config-not-copied", D, "        bd_conf = copy.deepcopy(config)", "        bd_conf = config", fires=["C17", "C19"])
+    R("c17-node-conf-aliases-default", D, '        conf = copy.deepcopy(attrs["default"])', '        conf = attrs["default"]', fires=["C17", "C19"])
+    R("c17-cluster-conf-aliases-default", D, '            cconf = copy.deepcopy(bd_conf["cluster"]["default"])', '            cconf = bd_conf["cluster"]["default"]', fires=["C17", "C19"])
+    R("c17-state-default-written-through-alias", C, '''    def _get_state(self, phase, phase_conf={}):
+        """Get initial state value for solver"""
+        return STATE_DEFAULT''', '''    def _get_state(self, phase, phase_conf={}):
+        """Get initial state value for solver"""
+        st = STATE_DEFAULT
+        st["off"] = [False]
+        return st''', fires=["C17"])
+    R("c17-restore-rs-omitted", S, '''            self._g[pidx]._params["vo"] = vo_org
+            self._g[pidx]._params["rs"] = rs_org''', '''            self._g[pidx]._params["vo"] = vo_org''', fires=["C17"])
+    R("c17-restore-only-on-exception", S, '''        finally:
+            # restore source params
+            self._g[pidx]._params["vo"] = vo_org
+            self._g[pidx]._params["rs"] = rs_org''', '''        except Exception:
+            self._g[pidx]._params["vo"] = vo_org
+            self._g[pidx]._params["rs"] = rs_org
+            raise
+        self._g[pidx]._params["vo"] = vo_org
+        self._g[pidx]._params["rs"] = rs_org''', fires=["C17"])
+    R("c17-pload-fills-phase-table", C, '''        elif phase not in phase_conf:
+            p = self._params["pwrs"]
+        else:
+            p = phase_conf[phase]''', '''        else:
+            p = phase_conf.setdefault(phase, self._params["pwrs"])''', fires=["C17"])
+    R("c17-prep-loss-normalises-phases-in-place", D, "            w += phases[key]\n        avg = avg / w", "            w += phases[key]\n            phases[key] = float(phases[key])\n        avg = avg / w", fires=["C17"])
+    R("c17-phases-caches-names-on-self", S, "        phase_names = list(self._g.attrs[\"phases\"].keys())\n        self._set_phase_lkup()", "        phase_names = list(self._g.attrs[\"phases\"].keys())\n        self._phase_names = phase_names\n        self._set_phase_lkup()", fires=["C17"])
+    R("eq-c17-restore-via-saved-tuple-names", S, '''        vo_org = self._g[pidx]._params["vo"]
+        rs_org = self._g[pidx]._params["rs"]''', '''        rs_org = self._g[pidx]._params["rs"]
+        vo_org = self._g[pidx]._params["vo"]''', silent=["C17", "C18"])
+
+
+_c17()
+
+
+# ----------------------------------------------------------------------------------------------- C18
+def _c18():
+    R("c18-solve-before-writes", S, '''                    self._g[pidx]._params["vo"] = bstate[1]
+                    self._g[pidx]._params["rs"] = bstate[2]
+                    _, i, _, _ = self._solve(phase=phase_list[phidx])''', '''                    _, i, _, _ = self._solve(phase=phase_list[phidx])
+                    self._g[pidx]._params["vo"] = bstate[1]
+                    self._g[pidx]._params["rs"] = bstate[2]''', fires=["C18"])
+    R("c18-always-first-phase", S, "                    _, i, _, _ = self._solve(phase=phase_list[phidx])", "                    _, i, _, _ = self._solve(phase=phase_list[0])", fires=["C18"])
+    R("c18-duration-of-next-phase", S, '                        deltat = self._g.attrs["phases"][phase_list[phidx]]', '                        deltat = self._g.attrs["phases"][phase_list[(phidx + 1) % len(phase_list)]]', fires=["C18"])
+    R("c18-current-of-node-zero", S, "                    bstate = dfunc(deltat, i[pidx])", "                    bstate = dfunc(deltat, i[0])", fires=["C18"])
+    R("c18-phidx-not-advanced", S, "                    phidx = (phidx + 1) % len(phase_list)\n", "", fires=["C18"])
+    R("c18-log-guard-ge", S, "                    if bstate[0] > 0.0 and bstate[1] > cutoff:\n                        t += [t[-1] + deltat]", "                    if bstate[0] >= 0.0 and bstate[1] > cutoff:\n                        t += [t[-1] + deltat]", fires=["C18"])
+    R("c18-log-time-not-cumulative", S, "                        t += [t[-1] + deltat]", "                        t += [deltat]", fires=["C18"])
+    R("c18-source-check-removed", S, '        if not isinstance(self._g[pidx], Source):\n            raise ValueError("Battery must be a source!")\n', '', fires=["C18"])
+    R("c18-rs-from-voltage-slot", S, '                    self._g[pidx]._params["rs"] = bstate[2]', '                    self._g[pidx]._params["rs"] = bstate[1]', fires=["C18"])
+    R("c18-nophase-step-unit", S, "                        deltat = (cap[0] / i[pidx]) * 3.6", "                        deltat = (cap[0] / i[pidx]) * 3600", fires=["C18"])
+    R("c18-idle-phase-skipped", S, "                    if phase_list == [\"\"]:\n                        deltat = (cap[0]", "                    if i[pidx] <= 0.0:\n                        phidx = (phidx + 1) % len(phase_list)\n                        continue\n                    if phase_list == [\"\"]:\n                        deltat = (cap[0]", fires=["C18"])
+    R("c18-log-starts-after-first-step", S, "        t = [0.0]\n        cap = [bstate[0]]", "        t = []\n        cap = [bstate[0]]", fires=["C18"])
+    R("eq-c18-log-guard-commuted", S, "                    if bstate[0] > 0.0 and bstate[1] > cutoff:\n                        t += [t[-1] + deltat]", "                    if cutoff < bstate[1] and 0.0 < bstate[0]:\n                        t += [deltat + t[-1]]", silent=["C18"])
+
+
+_c18()
